@@ -75,8 +75,9 @@ def gen(chk):
         vals = [0, 1, (1 << width) - 1, (1 << width) - 2, 1 << (width - 1)] + [1 << b for b in range(min(width + 3, 63))] + \
                [rng.getrandbits(width) for _ in range(24 if not thorough else 400)] + \
                [rng.getrandbits(rng.randrange(1, 63)) for _ in range(8 if not thorough else 100)]
-        if name == "A_MovnzNeg":
-            vals = [v for v in vals]
+        if name in ("R_U", "R_Ui", "R_Clui", "L_Call36"):
+            vals += [0x800, 0x7ff, 0x801, 0x12345800, 0x123457ff, 0xfffff800 & ((1 << width) - 1), 0x8000, 0x7fff, 0x18000]
+            vals = [x for x in vals if x < (1 << 63)]
         for o in olds:
             if name.startswith("A_Movnz"):
                 # also the 64-bit MOVZ/MOVN opcodes the ABI allows
@@ -130,7 +131,7 @@ def run(chk, replay=None):
     # ---- step 5: property predicate on the implementation ----
     hist = {}
     nontrivial = 0
-    fails = {"local": [], "indep": [], "readback": []}
+    fails = {"local": [], "indep": [], "readback": [], "encode": []}
     for (name, o, v), (a, b), rr in zip(cases, news, rres):
         k = KBY[name]
         _, kid, hn, neg, win, fm, width, signed, lz = k
@@ -166,6 +167,17 @@ def run(chk, replay=None):
                 okrb = rv & 0xffffffff == v & 0xffffffff
             if not okrb:
                 fails["readback"].append((name, o, v, nb, rv, want))
+            # ISA-level decode of the HI20-style fields (independent of wild's read_value)
+            enc_ok = True
+            hi = (v + 0x800) >> 12
+            if name == "R_U":
+                enc_ok = (nb >> 12) & 0xfffff == hi & 0xfffff
+            elif name == "R_Ui":
+                enc_ok = (nb >> 12) & 0xfffff == hi & 0xfffff and (nb >> 52) & 0xfff == v & 0xfff
+            elif name == "R_Clui":
+                enc_ok = ((((nb >> 12) & 1) << 5) | ((nb >> 2) & 0x1f)) == hi & 0x3f
+            if not enc_ok:
+                fails["encode"].append((name, o, v, nb))
     known = {k["id"]: k for k in chk.known}
 
     def classify(kindname, which, o, v):
